@@ -16,6 +16,8 @@ FAMILIES = {
 }
 OWNS = {p: [p + "_"] for p in FAMILIES}
 OWNS["C13"] += ["C01_NoForgedCompletion", "C03_RelForUnknown"]
+OWNS["C14"] += ["C01_AcceptedIsSaved", "C01_ErrorMeansNotEnqueued"]
+OWNS["C09"] = ["C09_", "C08_WholePackets"]
 OWNS["C12"] += ["C13_NoPanic"]
 OWNS["C16"] += ["C13_NoPanic"]
 
@@ -118,6 +120,11 @@ def fam_in(rnd, i, thorough, restart=False):
                         "pstore": 0.05, "pbreak": 0.08, "pstall": 0.15,
                         "inbound": [{"qos": rnd.choice([0, 1, 2, 2, 2]), "tag": 500 + k, "size": rnd.choice([8, 8, 100])}
                                     for k in range(rnd.choice([1, 2, 3, 4, 6]))]})
+    if rnd.random() < 0.4:   # messages beyond the read buffer (distinct sizes identify them), read or skipped
+        b["cfg"]["readbuf"] = 64
+        for k, m in enumerate(b["random"]["inbound"]):
+            m["size"] = rnd.choice([8, 40, 70 + 3 * k, 150 + 3 * k])
+        b["procs"]["rd"]["big"] = rnd.choice(["read", "skip"])
     if restart:
         b["random"].update({"gens": [{"rd2": {"kind": "reader"}}], "pstop": 0.03, "pstore": 0.0})
     return b
